@@ -118,6 +118,25 @@ PROPS["C06"] = {
     "assumptions": ["Coh, size and extents <= usize::MAX (C01)"],
 }
 
+PROPS["C20"] = {
+    "module": "Matreex.Props.C20", "harness": "C20",
+    "level_text": "PARTIAL. Machine-checked Lean 4 theorems about a List-Char model of both fmt bodies (no panic for any matrix and any renderings; for single-line renderings the exact text: one bracketed line per logical row, equal widths; order transparency of Display), tied to the implementation by exhaustive-palette correspondence of the complete output text of Display and Debug. "
+                  "Not carried by the model: the optional colour feature (owo-colors / supports-color detection) — only the configuration features=full with NO_COLOR set is executed, the default and no-default-features configurations are not built by the check; Debug's label layout is tied by correspondence only (no theorem about the labels).",
+    "technique": "Lean 4 theorems over a List Char model of fmt.rs (loop invariants for the Lines cache; str::lines for break-free strings; width = max over logical positions) + full-text correspondence over a palette of empty / multi-byte / multi-line / CRLF renderings",
+    "trusted": ["core::fmt width/alignment padding ({:<w$}, {:>w$}, {SPACE:w$} = at least w characters), str::lines, chars().count() modelled in Model/Fmt.lean",
+                "element Display/Debug impls are an input function (render)",
+                "colour support detection is outside the model; runs use NO_COLOR=1"],
+    "assumptions": ["Coh and size <= usize::MAX (C01)"],
+}
+
+PROPS["C07"] = {
+    "module": "Matreex.Props.C07", "harness": "C07",
+    "technique": "Lean 4 theorems: == is exactly logical equality for every pair of orders (cross-order get_unchecked in bounds), hence reflexive/symmetric/transitive; congruence of the order-agnostic operations w.r.t. logical equality as corollaries of their specifications (C04, C05, C10, C11, C12, C14, C20) + metamorphic correspondence (programs run row-major and with mixed orders / inserted switch_order)",
+    "trusted": ["PartialEq for Vec / slices modelled as length + pairwise comparison; element PartialEq is an input function",
+                "the congruence theorems cover get, transpose, swap_rows, overwrite, elementwise operations, multiply and Display; swap_cols, swap, scalar operations, map/apply and the views are covered by their own specifications (C06, C10, C18) plus the metamorphic runs, not by a separate congruence theorem"],
+    "assumptions": ["Coh and size <= usize::MAX (C01)"],
+}
+
 LEVEL_TEXT = ("Machine-checked Lean 4 theorems, for all inputs the property quantifies over, about a model whose integer core is "
               "regenerated from /repo/src on every run and whose remaining structure is tied to the implementation by a differential "
               "correspondence run (same operation lines on crate and model) plus the property's own oracle on the implementation.")
